@@ -263,10 +263,15 @@ P["C17"] = dict(
         ("Props.C17.C17_line_number", "line number = 1 + new-line symbols before the position"),
         ("Props.C17.C17_line_lf", "LF files: counted by LF"),
         ("Props.C17.C17_line_cr", "CR files: counted by CR"),
-        ("Props.C17.C17_line_crlf", "CRLF files: counted by LF")),
-    runs=[{"cmd": ["render-diff"]}, {"cmd": ["c17-positions"]}, {"cmd": ["json-exh"]}],
-    partial="JSON error positions, renderer totality and the line number (LF / CR / CRLF files) are theorems; text/caret exactness is model-vs-code exhaustive on small files; validation/schema positions are explored with planted violations",
-    level_text="Proof (partial): the JSON scanner's error index is the first byte after which nothing can follow while the prefix before it is completable (viable-prefix theorem through the C05 simulation, all byte strings); the renderer never indexes outside the content (theorem). Tie: renderer model vs real Error() on all contents up to 6/7 bytes over {a,space,tab,LF,CR} x all positions + long lines; model errPos vs real position on the exhaustive stream. Search: planted violations at generator-known offsets in documents and schemas.",
+        ("Props.C17.C17_line_crlf", "CRLF files: counted by LF"),
+        ("Props.C17.C17_validation_errpos", "validator with positions (C01 fragment + kind-disjoint alternatives, any literal rules) on a document tree's events = firstOffence: code and byte offset of the first offending value or key, any depth / width / layout"),
+        ("Props.C17.C17_validation_errpos_bytes", "the same on bytes with the scanner model in front (uses C06_events_of_tree)"),
+        ("Props.C17.C17_validation_pos_inside", "a reported validation position lies inside the document"),
+        ("Props.C17.C17_validation_pos_is_token_start", "a reported validation position is the begin offset of a value or key token"),
+        ("Props.C17.C17_validation_accepts_iff_shape", "the position-carrying validator accepts exactly the documents of the schema's shape (consistency with C01 / C03)")),
+    runs=[{"cmd": ["render-diff"]}, {"cmd": ["c17-positions"]}, {"cmd": ["c17-valpos"]}, {"cmd": ["json-exh"]}],
+    partial="JSON error positions, validation error positions (C01 fragment with kind-disjoint alternatives: code and offset of the first offending value or key), renderer totality and the line number (LF / CR / CRLF files) are theorems; text/caret exactness is model-vs-code exhaustive on small files; schema positions and validation positions under key shortcuts, additionalProperties, array-level rules and unions of several containers are explored with planted violations",
+    level_text="Proof (partial): the JSON scanner's error index is the first byte after which nothing can follow while the prefix before it is completable (viable-prefix theorem through the C05 simulation, all byte strings); a validation error is reported with the code and at the first byte of the first offending value or key of the document, in document order (theorem: position-carrying validator model = denotational firstOffence over document trees with layout, incl. through the scanner model on bytes); the renderer never indexes outside the content (theorem). Tie: position-carrying validator model and spec vs real Validate (code, position) on generated schema x document pairs with planted violations and random layout (c17-valpos); renderer model vs real Error() on all contents up to 6/7 bytes over {a,space,tab,LF,CR} x all positions + long lines; model errPos vs real position on the exhaustive stream. Search: planted violations at generator-known offsets in documents and schemas.",
     level_note="Trusted: Lean kernel; line-number/caret text exactness validated exhaustively on small files, not proved.",
     technique="Lean 4 theorems (first dead byte, renderer totality) + exhaustive differential + planted-violation exploration")
 
